@@ -77,4 +77,42 @@ Definition find_operating_point (qimin qlast hsys hpump : T) (bconv : bool) (bro
         else (OperatingPointError, vis)
       end.
 
+(* ---- Pipeline.qimin (after the repair 4ea85a5): the bounded minimiser over the whole range (an oracle: rx = result.x,
+   rf = result.fun), compared with the best TABULATED flow (Python's min over (head, flow) tuples: smallest head, then
+   smallest flow); when a tabulated flow is better, a second bounded minimisation between its neighbours (oracle: fx,
+   ff), kept only when it is at least as good.  Returns the flow and the system head the code saw at it. *)
+Fixpoint lexmin (l : list (T * T)) : option (T * T) :=
+  match l with
+  | [] => None
+  | (h, q) :: r =>
+    match lexmin r with
+    | None => Some (h, q)
+    | Some (h', q') => if orb (nltb N h h') (andb (neqb N h h') (nleb N q q')) then Some (h, q) else Some (h', q')
+    end
+  end.
+
+Fixpoint index_of (x : T) (l : list T) : nat :=
+  match l with [] => 0 | y :: r => if neqb N y x then 0 else S (index_of x r) end.
+
+Definition lower_bound (flows : list T) : T :=
+  match flows with
+  | f0 :: f1 :: _ => if nleb N f0 (nint N 0%Z) then nmul N f1 (nlit N 1%Z 10%positive) else nmul N f0 (nlit N 1%Z 10%positive)
+  | f0 :: [] => nmul N f0 (nlit N 1%Z 10%positive)
+  | [] => nint N 0%Z
+  end.
+
+Definition qimin (flows : list T) (head : T -> T) (rx rf fx ff : T) : T * T :=
+  let lower := lower_bound flows in
+  let tab := map (fun q => (head q, q)) (filter (fun q => nleb N lower q) flows) in
+  match lexmin tab with
+  | None => (rx, rf)
+  | Some (ht, qt) =>
+    if nltb N ht rf then
+      let i := index_of qt flows in
+      let qlo := nmax N (nth (i - 1) flows (nint N 0%Z)) lower in
+      let qhi := nth (Nat.min (i + 1) (length flows - 1)) flows (nint N 0%Z) in
+      if nltb N qlo qhi then (if nleb N ff ht then (fx, ff) else (qt, ht)) else (qt, ht)
+    else (rx, rf)
+  end.
+
 End OpPoint.
